@@ -44,6 +44,8 @@ func GenParseFamily(w *Writer, r *Rng, t Tier) error {
 			for si, st := range styles {
 				xp := Render(e, st)
 				w.Eval(EvalCase{Fam: []string{"parse-min", "parse-parens", "parse-ws"}[si], Doc: doc, Env: env, Start: g.Start, E: e, Xpath: xp})
+				// the same string, lexed and parsed by the model itself: its tree must be `e`
+				w.Syn([]string{"parse-min-syn", "parse-parens-syn", "parse-ws-syn"}[si], xp, e)
 			}
 		}
 		// names that spell an axis or a node type, as prefix, as local part, or both
